@@ -541,7 +541,7 @@ func (ts *rpcTransports) exchange(t rpcTransport, kind string, body []byte, ctyp
 		return ts.allHealthy(desc)
 	case strings.HasPrefix(how, "http-"):
 		c.Hit("server-http-error")
-		if !t.stream() && e.valid && ctype == "application/json" && len(body) <= 5*1024*1024 {
+		if !t.stream() && e.valid && ctype == "application/json" && len(body) <= rpcHTTPRequestLimit {
 			c.Fail("C18: request [%s] is a JSON request below the size limit and was answered with %s %.120s", desc, how, resp)
 		}
 	case how == "sentinel-wrong" || how == "sentinel-missing":
